@@ -72,3 +72,16 @@ CORPUS += [
     M("capability-loop-stops-at-empty-record", C, "            if size == 0:\n                caps = caps[3:]\n                continue", "            if size == 0:\n                caps = caps[3:]\n                break"),
     M("additional-page-not-awaited", D, "            additional_response = await self._send_command_get_response_with_id(cmd, ResponseId.CAPABILITIES)", "            additional_response = self._send_command_get_response_with_id(cmd, ResponseId.CAPABILITIES)"),
 ]
+# round 10: growth - a multi-value record read as a fixed window; a variadic merge
+CORPUS += [
+    M("window-read-past-record", "msmart/device/AC/command.py", "            # Fetch first cap value\n            value = caps[3]\n",
+      "            if raw_id == 0x0230:\n                strips = caps[3:7]\n                self._capabilities[\"strips\"] = sum(strips)\n                caps = caps[3+size:]\n                continue\n\n            # Fetch first cap value\n            value = caps[3]\n"),
+    M("n-window-read-inside-record", "msmart/device/AC/command.py", "            # Fetch first cap value\n            value = caps[3]\n",
+      "            if raw_id == 0x0230 and size >= 4:\n                strips = caps[3:7]\n                self._capabilities[\"strips\"] = sum(strips)\n                caps = caps[3+size:]\n                continue\n\n            # Fetch first cap value\n            value = caps[3]\n", "S"),
+    M("variadic-merge-earlier-page-wins", "msmart/device/AC/command.py",
+      "    def merge(self, other: CapabilitiesResponse) -> None:\n        # Add other's capabilities to ours\n        self._capabilities.update(other._capabilities)\n",
+      "    def merge(self, *others: CapabilitiesResponse) -> None:\n        for other in others:\n            self._capabilities = {**other._capabilities, **self._capabilities}\n"),
+    M("n-variadic-merge-in-order", "msmart/device/AC/command.py",
+      "    def merge(self, other: CapabilitiesResponse) -> None:\n        # Add other's capabilities to ours\n        self._capabilities.update(other._capabilities)\n",
+      "    def merge(self, *others: CapabilitiesResponse) -> None:\n        for other in others:\n            self._capabilities = {**self._capabilities, **other._capabilities}\n", "S"),
+]
